@@ -161,7 +161,7 @@ def merges? (s : String) : Option (List (Nat × Nat)) :=
     | _ => none
 
 def dendroArgs? (kv : KV) : Option DendroArgs := do
-  pure { merges := ← fld kv "merges" merges? [], cutLabels := ← fld kv "cut" nats? [],
+  pure { merges := ← fld kv "merges" merges? [], cutLabels := ← fld kv "cut" optNats? (some []),
          names := ← fld kv "names" optStrList? none, rotate := ← fld kv "rotate" bool? false,
          rotateNames := ← fld kv "rotate_names" bool? true, color := ← fld kv "color" pystr? py!"black",
          colors := ← fld kv "colors" strList? standardColors, reorder := ← fld kv "reorder" bool? false }
@@ -190,6 +190,21 @@ def specAnswer (kv : KV) (doc : PyStr) (e : Expected) (geom : List Piece → Boo
      | none => "fails")
   else "fails " ++ docReport doc e
 
+def nearAnswer (kv : KV) (doc : PyStr) (lo hi : Expected) : String :=
+  if get kv "expat" == some "0" then "fails xml-parser-rejects"
+  else if !wf doc then "fails not-well-formed"
+  else match parseDoc doc with
+    | none => "fails not-well-formed"
+    | some ps =>
+      let o := observed ps
+      if rootName ps != some py!"svg" then "fails root-not-svg"
+      else if o.circles != hi.circles || o.sectors != hi.sectors || o.texts != hi.texts then
+        "fails " ++ docReport doc hi
+      else if o.edgePaths == hi.edgePaths then "holds"
+      else if lo.edgePaths ≤ o.edgePaths && o.edgePaths ≤ hi.edgePaths then
+        s!"fails sub-resolution edgePaths={o.edgePaths}/{hi.edgePaths} (an arrow between nodes at distinct positions closer than the float64 resolution of the rescaled layout is not drawn)"
+      else "fails " ++ docReport doc hi
+
 def handle : Handler
   | "c20.graph", toks => some <| Option.getD (do
       let a ← graphArgs? (kvOf toks)
@@ -209,14 +224,22 @@ def handle : Handler
   | "c20.spec_graph", toks => some <| Option.getD (do
       let kv := kvOf toks
       let a ← graphArgs? kv
-      some (specAnswer kv (← doc? kv) (expectedGraph a) (geomGraph a))) "bad-args"
+      let doc ← doc? kv
+      match get kv "pos_lo" with
+      | none => some (specAnswer kv doc (expectedGraph a) (geomGraph a))
+      | some v => do
+        -- near-coincident positions: the number of edge paths must lie between the expectation with these nodes
+        -- merged (`pos_lo`) and the exact expectation
+        let lo ← pos? v
+        some (nearAnswer kv doc (expectedGraph { a with pos := lo }) (expectedGraph a))) "bad-args"
   | "c20.spec_bigraph", toks => some <| Option.getD (do
       let kv := kvOf toks
       let a ← bigraphArgs? kv
       some (specAnswer kv (← doc? kv) (expectedBigraph a) (geomBigraph a))) "bad-args"
   | "c20.spec_dendrogram", toks => some <| Option.getD (do
       let kv := kvOf toks
-      some (specAnswer kv (← doc? kv) (expectedDendrogram (← dendroArgs? kv)))) "bad-args"
+      let a ← dendroArgs? kv
+      some (specAnswer kv (← doc? kv) (expectedDendrogram a) (geomDendro a))) "bad-args"
   -- the file written, decoded as UTF-8 by the strict decoder of the specification, is the returned string
   | "c20.spec_file", toks => some <| Option.getD (do
       let kv := kvOf toks
@@ -229,8 +252,10 @@ def handle : Handler
         | some s => if s == a then "holds" else "fails file-differs"
         | none => "fails file-is-not-utf8")) "bad-args"
   | "c20.wf", toks => some <| Option.getD (do
-      let d ← doc? (kvOf toks)
-      some (if wf d then "holds" else "fails")) "bad-args"
+      let kv := kvOf toks
+      let d ← doc? kv
+      some (if get kv "expat" == some "0" then "fails xml-parser-rejects"
+            else if wf d then "holds" else "fails not-well-formed")) "bad-args"
   | _, _ => none
 
 end SkNet.Drive.C20
